@@ -6,7 +6,12 @@ package datastore
 // other packages (pkg/server, C19): the same Datastore vNewEnv builds.
 
 import (
+	"context"
+	"time"
+
 	"github.com/sdcio/data-server/pkg/cache"
+	"github.com/sdcio/data-server/pkg/datastore/types"
+	sdcpb "github.com/sdcio/sdc-protos/sdcpb"
 )
 
 // VerifNewDatastore returns a Datastore named "ds" (real methods over the model
@@ -23,4 +28,27 @@ func (d *Datastore) VerifDeviationClients() int {
 	d.m.RLock()
 	defer d.m.RUnlock()
 	return len(d.deviationClients)
+}
+
+// VerifStalledTransaction starts a TransactionSet with one valid intent on a goroutine of its
+// own; the device does not answer the Set before release() is called, so the transaction stays
+// in flight (holding whatever the datastore holds during an apply). After release() and
+// quiescence the caller confirms transaction "stalled" to stop its rollback timer.
+func (d *Datastore) VerifStalledTransaction() (release func()) {
+	tgt := d.sbi.(*vTarget)
+	ch := make(chan struct{})
+	tgt.StallSet = ch
+	ctx := context.Background()
+	ti, err := d.SdcpbTransactionIntentToInternalTI(ctx, &sdcpb.TransactionIntent{Intent: "Z", Priority: 10, Update: []*sdcpb.Update{
+		{Path: vPath(vPE("interface", "name", "lo7"), vPE("mtu")), Value: vUintTV(1500)}}})
+	if err != nil {
+		panic(err)
+	}
+	go func() {
+		_, _ = d.TransactionSet(ctx, "stalled", []*types.TransactionIntent{ti}, nil, time.Minute, false)
+	}()
+	return func() {
+		tgt.StallSet = nil
+		close(ch)
+	}
 }
